@@ -470,9 +470,20 @@ def scenario_cli(sc, tmproot, chooser_factory):
         S.note(pt="sleep", dec=d)
         if d == "interrupt":
             raise KeyboardInterrupt
+    import time as _real_time
+    for n_ in dir(_real_time):
+        if not n_.startswith("__"):
+            setattr(shim_t, n_, getattr(_real_time, n_))
     shim_t.sleep = ctl_sleep
+    # the command line's view of the threading module: everything as it is, except that the two ways of counting live threads see the
+    # managed threads (enumerate() and active_count() are documented to agree)
     shim_th = types.ModuleType("threading_shim")
+    for n_ in dir(threading):
+        if not n_.startswith("__"):
+            setattr(shim_th, n_, getattr(threading, n_))
     shim_th.enumerate = lambda: ["main"] + [n for n in S.alive if n != "main"]
+    shim_th.active_count = lambda: len(shim_th.enumerate())
+    shim_th.activeCount = shim_th.active_count
     printed = []
     w = B / sr
     out_stream = os.path.join(tmp, "stream_out.wav")
@@ -693,13 +704,14 @@ def explore_parallel(tiny, tmproot, cap, nproc=NCPU):
     """Every tiny configuration: a short sequential exploration yields a frontier of unexplored prefixes (disjoint subtrees); rounds of
     parallel depth-first exploration follow, each worker with its share of the remaining budget, unexplored prefixes going back to the
     frontier, until the frontier is empty (every schedule enumerated) or the cap is reached."""
-    out = []
-    for i, base in enumerate(tiny):
-        runs, done, frontier = explore_systematically(base, os.path.join(tmproot, f"x{i}"), min(cap, 16))
-        out.append({"runs": runs, "frontier": frontier})
+    # every controlled run happens in a worker process: the parent stays single-threaded (a parent that has run threads of its own and then
+    # forks a pool once hung with idle workers and a dead pool manager)
     share = max(1, nproc // max(1, len(tiny)))
     rnd = 0
     with ProcessPoolExecutor(max_workers=nproc) as ex:
+        out = []
+        for rs, left in ex.map(_explore_job, [(base, os.path.join(tmproot, f"x{i}"), min(cap, 16), None) for i, base in enumerate(tiny)], timeout=1800):
+            out.append({"runs": rs, "frontier": left})
         while any(o["frontier"] and len(o["runs"]) < cap for o in out) and rnd < 40:
             rnd += 1
             jobs = []
@@ -711,7 +723,7 @@ def explore_parallel(tiny, tmproot, cap, nproc=NCPU):
                 o["frontier"] = []
                 for j, part in enumerate(parts):
                     jobs.append((i, (tiny[i], os.path.join(tmproot, f"x{i}_{rnd}_{j}"), max(1, -(-budget // len(parts))), part)))
-            for (i, _), (rs, left) in zip(jobs, ex.map(_explore_job, [j[1] for j in jobs])):
+            for (i, _), (rs, left) in zip(jobs, ex.map(_explore_job, [j[1] for j in jobs], timeout=1800)):
                 out[i]["runs"] += rs
                 out[i]["frontier"] += left
     return [(o["runs"], not o["frontier"]) for o in out]
